@@ -38,17 +38,17 @@ CHECKS = {
     'C06': dict(level='exploration', ref='4 C06',
         text='Component rig (real Parser + ConnectionManager + Controller): a multi-connection history streams in while a scripted user changes the filter and the selected connection '
              'between two reads at scheduler-chosen points; every arriving message is stamped with the reference (filter, selection) in force and the shown message lines are compared in both directions '
-             '(nothing matching hidden, nothing else shown, once, in order); Connection.messages() and a closing `connection all` + `list *` must contain every message. Every sixth run adds messages on objects the tool cannot resolve (under selection changes, filter *); app ids that collide with connection names are aimed at `connection <x>`.',
+             '(nothing matching hidden, nothing else shown, once, in order); Connection.messages() and a closing `connection all` + `list *` must contain every message. Every sixth run adds messages on objects the tool cannot resolve (under selection changes, filter *); app ids that collide with connection names are aimed at `connection <x>`. A quarter of the runs (lanes 12-15) drive the same session model through the GDB world: the real plugin.py command and message paths on the fake gdb, commands typed at user interrupts.',
         note='Trusted: three-valued reference matcher over the documented subset (don\'t-cares counted); simulated endpoints and printer. Commands are injected between two readline() calls of the real parse loop.',
         technique=TECH + '; user actor scheduled between reads'),
     'C11': dict(level='exploration', ref='4 C11',
         text='`list [X:] [matcher] [~ N]` issued at scheduler-chosen points of streaming histories (selected connection or none, N absent/0/1../beyond, repeated); listed lines, last-N rule and the '
-             'matched/didn\'t/not-checked identity are compared with the reference evaluation of the recorded ground-truth history; side effects are detected by the filter/selection/breakpoint model on subsequent traffic. Every sixth run lists histories that contain messages on objects the tool cannot resolve, with and without a selected connection.',
+             'matched/didn\'t/not-checked identity are compared with the reference evaluation of the recorded ground-truth history; side effects are detected by the filter/selection/breakpoint model on subsequent traffic. Every sixth run lists histories that contain messages on objects the tool cannot resolve, with and without a selected connection. A quarter of the runs (lanes 12-15) drive the same session model through the GDB world: the real plugin.py command and message paths on the fake gdb, commands typed at user interrupts.',
         note='Trusted: reference matcher (queries with a don\'t-care message are checked for inclusion only and counted).',
         technique=TECH + '; user actor scheduled between reads'),
     'C12': dict(level='exploration', ref='4 C12',
         text='Sequences of 1-8 filter/breakpoint commands (alternatives only, exclusions only, both, `*`, `!`, malformed) interleaved with traffic; a reference accumulated state '
-             '(constant * / constant ! / alternatives + exclusions) judges every later message (shown? Stopped-at?) and every no-argument `list` over the whole recorded history; malformed commands must report an error and leave the state unchanged.',
+             '(constant * / constant ! / alternatives + exclusions) judges every later message (shown? Stopped-at?) and every no-argument `list` over the whole recorded history; malformed commands must report an error and leave the state unchanged. A quarter of the runs (lanes 12-15) drive the same session model through the GDB world: the real plugin.py command and message paths on the fake gdb, commands typed at user interrupts.',
         note='Trusted: reference matcher; one deliberate don\'t-care (alternatives swallowed by an earlier `*`), counted in evidence.',
         technique=TECH + '; user actor scheduled between reads'),
     'C14': dict(level='exploration', ref='4 C14',
